@@ -179,8 +179,22 @@ def run_case(case, rec):
     # (only for frames the library demonstrably accepts from a bytearray:
     # the documented input type is bytes, and frames carrying a non-empty
     # field table are refused when handed over as a bytearray)
-    if whole.ok and case['cuts'] is None and n <= 600 and \
-            common.lib_unmarshal(bytearray(data)).ok:
+    # Which frames those are is decided from the frame's own bytes with the
+    # reference decoder - frames without any field-table entry (bodies,
+    # heartbeats, protocol headers, methods and headers whose tables are
+    # empty) - never by asking the tree under test whether it happens to
+    # accept this frame from a bytearray today.
+    def _keyless():
+        try:
+            tr = refcodec.dec_frame(data).trace
+            return not any(run for run in tr.key_runs)
+        except Exception:
+            return False
+    from_ba = case['cuts'] is None and n <= 600 and whole.ok and _keyless()
+    if from_ba:
+        rec.count('frames_that_must_decode_from_a_bytearray')
+    if from_ba or (whole.ok and case['cuts'] is None and n <= 600 and
+                   common.lib_unmarshal(bytearray(data)).ok):
         buf = bytearray()
         step = 1 if n <= 64 else 3
         for k in list(range(0, n, step)):
